@@ -14,6 +14,11 @@ pre-header block, restructures it, prints every remaining condition once and wal
 entry under every truth assignment: it must reach the exit the original branches reach (or never leave, if the
 original never leaves; step bound 4k+8).
 
+A third family ('stmt') adds one statement block S to 2 or 3 conditions (c0 = method entry; condition edges target any
+condition, S or an exit; S jumps anywhere; loop latches back to the entry included) and compares what is EXECUTED: the
+sequence of visits of S (first 3) and the exit, for every truth assignment -- a latch folded into the entry condition
+reaches the same exit but skips the first run of the body.
+
 Oracle: for every ShortCircuitBlock N the printed text is parsed (( ) && || !) and evaluated under each assignment; it
 must select N.true (as left by the writer after any swap) exactly when walking the ORIGINAL chain from N's first
 constituent under that assignment leaves N's constituents towards that node (N.false otherwise).
@@ -27,7 +32,8 @@ LEVEL = "exploration"
 RULE = ("all acyclic connected graphs of 2..3 (thorough 4) two-way conditions over 3 exits x all truth assignments x all "
         "writer contexts (loop_follow, if-follow, next_case in {None, true target, false target, unrelated}; raw print); "
         "plus all (also cyclic) condition graphs of 2..3 (thorough 4) conditions, head = method entry or behind a "
-        "pre-header, walked from the entry under every assignment.  "
+        "pre-header, walked from the entry under every assignment; plus 2..3 conditions and one statement node "
+        "(entry = chain head, latches back to the entry), executions of the statement and exit compared.  "
         "Non-trivial = a case where short_circuit_struct merged at least two conditions; distinct by construction "
         "(graph x merged node x context), assignments are evaluated inside one case")
 ASSUMPTIONS = ["leaf conditions are stubs whose neg() toggles their truth value (what ConditionalExpression.neg does by "
@@ -57,6 +63,10 @@ def space(ctx):
     return {"conditions": [2, 3] + ([4] if ctx.thorough else []), "exits": EXITS,
             "edge_targets": "any other condition or any exit; graph acyclic, every condition reachable from c0",
             "truth_assignments": "all 2^k",
+            "stmt_family": {"conditions": [2, 3], "statement_nodes": 1, "exits": 2 if ctx.thorough else 1,
+                            "edge_targets": "condition edges: any condition (itself included), S or an exit; S: any "
+                                            "condition or exit; c0 is the method entry; everything reachable",
+                            "oracle": "sequence of executions of S (first %d) and exit reached, every assignment" % MAX_S},
             "walk_family": {"conditions": [2, 3] + (["4 (two exits)"] if ctx.thorough else []),
                             "edge_targets": "any condition (itself included) or any exit; every condition reachable",
                             "head": ["method entry", "behind a pre-header block"], "step_bound": "4k+8"},
@@ -169,6 +179,11 @@ def shards(ctx):
     s.append(("walk", 2, None, None, 3))
     for first in itertools.product(walk_targets(3), repeat=2):
         s.append(("walk", 3, list(first), None, 3))
+    # conditions + one statement node, chain starting at the method entry, latches back to the entry included
+    nx = 2 if ctx.thorough else 1
+    s.append(("stmt", 2, nx, None))
+    for first in itertools.product(list(range(3)) + ["S"] + EXITS[:nx], repeat=2):
+        s.append(("stmt", 3, nx, list(first)))
     if ctx.thorough:                              # 4 conditions over two exits
         for first in itertools.product(walk_targets(4, 2), repeat=2):
             for st in walk_targets(4, 2):
@@ -215,7 +230,7 @@ def Leaf(name):
     return _LEAF[0](name)
 
 
-def build(k, edges, pre=False):
+def build(k, edges, pre=False, stmt=None):
     """Real Graph of real CondBlocks/ReturnBlocks; returns (graph, conds, exits-by-name).
     pre=True puts a StatementBlock P in front of c0 (the chain head then is not the method entry)."""
     from androguard.decompiler.basic_blocks import CondBlock, ReturnBlock, StatementBlock
@@ -228,8 +243,14 @@ def build(k, edges, pre=False):
     for x in EXITS:
         g.add_node(exits[x])
 
+    snode = StatementBlock("S", []) if stmt is not None else None
+    if snode is not None:
+        g.add_node(snode)
+
     def node(t):
-        return conds[t] if isinstance(t, int) else exits[t]
+        return conds[t] if isinstance(t, int) else snode if t == "S" else exits[t]
+    if snode is not None:
+        g.add_edge(snode, node(stmt))
     for i, (t, f) in enumerate(edges):
         conds[i].true = node(t)
         conds[i].false = node(f)
@@ -242,16 +263,16 @@ def build(k, edges, pre=False):
         g.add_edge(p, conds[0])
         g.entry = p
     # exits that no edge uses are unreachable: drop them so that the graph is rooted
-    used = {t for p in edges for t in p if not isinstance(t, int)}
+    used = {t for p in edges for t in p if not isinstance(t, int)} | {stmt}
     for x in EXITS:
         if x not in used:
             g.nodes.remove(exits[x])
     return g, conds, exits
 
 
-def restructure(k, edges, pre=False):
+def restructure(k, edges, pre=False, stmt=None):
     from androguard.decompiler.control_flow import short_circuit_struct
-    g, conds, exits = build(k, edges, pre)
+    g, conds, exits = build(k, edges, pre, stmt)
     g.compute_rpo()
     idom = g.immediate_dominators()
     node_map = {}
@@ -524,6 +545,128 @@ def judge_walk(k, edges, pre, acc=None):
     return None
 
 
+# ---------------------------------------------------------------------------------------------------------------
+# walks with a statement node: the chain starts at the method entry, a statement block S sits between conditions, a
+# later condition may be a loop latch jumping back to the entry; what is EXECUTED (visits of S) is compared, not only
+# the exit, because a latch folded into the entry tests the latch before the body has run once yet reaches the same exit
+MAX_S = 3
+
+
+def stmt_graphs(k, nexits, first=None):
+    """k conditions + one statement node S.  Condition edges target any condition, S or an exit; S jumps to any
+    condition or exit; every condition and S reachable from c0 (= the method entry)."""
+    tg = list(range(k)) + ["S"] + EXITS[:nexits]
+    per = [list(itertools.product(tg, tg)) for _ in range(k)]
+    if first is not None:
+        per[0] = [tuple(first)]
+    for combo in itertools.product(*per):
+        if not any("S" in p for p in combo):
+            continue
+        for st in list(range(k)) + EXITS[:nexits]:
+            seen, todo = {0}, [0]
+            while todo:
+                u = todo.pop()
+                for t in (combo[u] if u != "S" else (st,)):
+                    if (isinstance(t, int) or t == "S") and t not in seen:
+                        seen.add(t)
+                        todo.append(t)
+            if len(seen) == k + 1:
+                yield [list(p) for p in combo], st
+
+
+def trace_original(k, edges, st, val, limit):
+    cur, trace, steps = 0, [], 0
+    while True:
+        steps += 1
+        if steps > limit:
+            return trace, "never leaves"
+        if cur == "S":
+            trace.append("S")
+            if len(trace) >= MAX_S:
+                return trace, "..."
+            cur = st
+        elif isinstance(cur, int):
+            cur = edges[cur][0 if val[LETTERS[cur]] else 1]
+        else:
+            return trace, cur
+
+
+def judge_stmt(k, edges, st, acc=None):
+    """Execution equivalence over the whole graph: for every truth assignment the sequence of executions of S (first
+    MAX_S of them) and the exit reached must be the same in the restructured graph as in the original."""
+    from androguard.decompiler.writer import Writer
+    limit = 8 * (k + 2)
+    back = any(t == 0 for p in edges for t in p) or st == 0
+    key = "walk+stmt:%s" % ("back-edge-to-entry" if back else "entry-not-a-target")
+    try:
+        g, conds, exits, node_map = restructure(k, edges, False, st)
+        printed = {}
+        for node in g.nodes:
+            if node.type.is_cond:
+                w = Writer(g, None)
+                node.visit_cond(w)
+                printed[node] = str(w)
+    except Exception as e:      # noqa
+        return key + ":exception", "k=%d edges=%s S->%s: restructuring raised %s: %s" % (k, edges, st, type(e).__name__, e)
+    nmerged = sum(pattern(n).count("&&") + pattern(n).count("||") for n in printed if getattr(n, "cond", None) is not None)
+    if acc is not None:
+        acc.count("stmt_graphs")
+        if back:
+            acc.count("stmt_graphs_with_back_edge_to_entry")
+        if nmerged:
+            acc.count("stmt_graphs_merged")
+            acc.nt_disjoint += 1
+        if nmerged >= 2:
+            acc.count("stmt_graphs_with_2+_merges")
+            if back:
+                acc.count("stmt_graphs_with_2+_merges_and_back_edge_to_entry")
+        acc.outcomes.add(h8(tuple(sorted(printed.values()))))
+    bad = []
+    for bits in itertools.product((False, True), repeat=k):
+        val = {LETTERS[i]: bits[i] for i in range(k)}
+        want = trace_original(k, edges, st, val, limit)
+        cur, trace, steps, end = g.entry, [], 0, None
+        while end is None:
+            steps += 1
+            if cur not in g.nodes:
+                end = "node %s which is not in the graph any more" % cur.name
+            elif steps > limit:
+                end = "never leaves"
+            elif cur in printed:
+                cur = cur.true if evaluate(printed[cur], val) else cur.false
+            elif cur.type.is_return:
+                end = cur.name
+            else:
+                trace.append(cur.name)
+                if len(trace) >= MAX_S:
+                    end = "..."
+                else:
+                    nxt = g.sucs(cur)
+                    cur = nxt[0] if nxt else None
+                    if cur is None:
+                        end = "dead end"
+        if (trace, end) != want:
+            bad.append("%s: original executes %s then %s, restructured executes %s then %s"
+                       % (" ".join("%s=%d" % (LETTERS[i], bits[i]) for i in range(k)), want[0], want[1], trace, end))
+    if bad:
+        return key, ("k=%d conditions %s, S -> %s (entry c0); after restructuring %s: %s"
+                     % (k, edges, st, sorted(printed.values()), "; ".join(bad[:4])))
+    return None
+
+
+def run_stmt(ctx, shard, acc):
+    _, k, nexits, first = shard
+    for edges, st in stmt_graphs(k, nexits, first):
+        res = judge_stmt(k, edges, st, acc)
+        acc.n += 1
+        acc.count("assignments_walked", 1 << k)
+        if res:
+            acc.violation(res[0], {"fam": "stmt", "k": k, "edges": edges, "S": st}, res[1])
+    if k == 2:
+        acc.sample({"family": "walk with a statement node", "k": 3, "edges": [[1, "X"], ["S", "X"], [0, "X"]], "S": 2})
+    return acc
+
+
 def run_walk(ctx, shard, acc):
     _, k, first, st, nexits = shard
     for edges in walk_graphs(k, first, st, nexits):
@@ -542,6 +685,8 @@ def run_shard(ctx, shard):
     acc = Acc()
     if shard[0] == "walk":
         return run_walk(ctx, shard, acc)
+    if shard[0] == "stmt":
+        return run_stmt(ctx, shard, acc)
     _, k, first, st = shard
     for edges in graphs(k, first, st):
         for key, msg in judge_graph(k, edges, acc):
@@ -554,6 +699,9 @@ def run_shard(ctx, shard):
 
 
 def replay(ctx, w):
+    if w.get("fam") == "stmt":
+        res = judge_stmt(w["k"], w["edges"], w["S"])
+        return res[1] if res else None
     if w.get("fam") == "walk":
         res = judge_walk(w["k"], w["edges"], w["pre"])
         return res[1] if res else None
@@ -563,7 +711,8 @@ def replay(ctx, w):
 
 def finalize(ctx, acc):
     ex = acc.extra
-    for name in ("chain_graphs_merged", "writer_swapped", "writer_did_not_swap", "walk_graphs_acyclic",
+    for name in ("stmt_graphs_with_2+_merges_and_back_edge_to_entry", "stmt_graphs_merged",
+                 "chain_graphs_merged", "writer_swapped", "writer_did_not_swap", "walk_graphs_acyclic",
                  "walk_graphs_cyclic_inner", "walk_graphs_cyclic_back-to-head", "walk_graphs_merged_acyclic"):
         if not ex.get(name):
             acc.harness_error("vacuity: counter %s is zero" % name)
